@@ -45,9 +45,11 @@ structure Entry where
 /-- Error kinds a caller can observe. `missingApp`, `unsupported`, `missingFeatures`, `invalid` are platform-level
 errors (`forml.AnyError`); `invalid payload branch` is the `forml.InvalidError` the mapper of `branch` raised on the data
 of the request with `payload` (so a failure delivered to the wrong caller is visible); `fatal` is the non-platform
-exception itself, `notRunning` is `RuntimeError('Executor not running')` of `Executor.apply` after the pool was stopped. -/
+exception itself, `notRunning` is `RuntimeError('Executor not running')` of `Executor.apply` after the pool was stopped,
+`brokenPool` is `concurrent.futures.process.BrokenProcessPool` of the wrapper's process pool (`Wrapper.respond`) once a
+result could not be brought back from it (`ForML.Model.ServingCold`). -/
 inductive Err where
-  | missingApp | unsupported | missingFeatures | fatal | notRunning
+  | missingApp | unsupported | missingFeatures | fatal | notRunning | brokenPool
   | invalid (payload branch : Nat)
   deriving DecidableEq, Repr
 
